@@ -42,6 +42,11 @@ func propC10(c *Ctx, r *Report) {
 	r.Clauses = append(r.Clauses, "no unmemoised re-lowering (E9): a function of the lowerer that hands an initialiser kept as syntax (an entry of a map[string]parser.Expr field, looked up by name) to a lowering call at each use of the name also memoises the lowered result under that name - otherwise a chain of n declarations costs 2^n lowerings")
 	c.runRelower(r, "time.relower")
 	r.floor("time.relower", 1)
+	r.Clauses = append(r.Clauses, sameSliceClause, memoNilClause)
+	c.runBoundsSameSlice(r, "bounds.sameslice", func(string) bool { return true })
+	r.floor("bounds.sameslice", 300)
+	c.runMemoNilResult(r, "memo.nilresult", func(string) bool { return true })
+	r.floor("memo.nilresult", 40)
 	r.Clauses = append(r.Clauses, forHeaderClause+" - a break / continue / return in the update clause reached the SPIR-V backend with no open block (nil dereference)")
 	c.runForHeader(r, "parse.forheader", "wgsl/internal/parser")
 	r.floor("parse.forheader", 8)
